@@ -81,7 +81,7 @@ class C03(Prop):
             labels.append('amb2')
         for r in case['cons']:
             if r.get('E'):
-                labels.append('Erow:pw' if r.get('alt') else 'Erow:affine')
+                labels.append('Erow:pw' if r.get('alt') else 'Erow:vector' if r.get('vec') else 'Erow:affine')
             if r.get('amb'):
                 labels.append('forall_amb2')
             if r.get('fsupp'):
